@@ -106,6 +106,9 @@ def gen_project(rng, force=None):
             unit = rng.choice(["h", "h", "d", "min"])
             n = {"h": rng.randint(1, 40), "d": rng.randint(1, 6), "min": rng.choice([30, 45, 50, 90, 100, 135, 200])}[unit]
             body.append(f"effort {n}{unit} {alloc()}")
+            if rng.random() < 0.15:
+                # a backward-scheduled task: it books from its end towards its start (the money column must not care)
+                body.append(f"scheduling alap end 2025-01-{min(28, start_day + 4 + rng.randrange(0, 3)):02d}-17:00")
         if prev and rng.random() < 0.45:
             body.append("depends !" + rng.choice(prev))
         if rng.random() < 0.2:
